@@ -419,7 +419,9 @@ class Sched:
         return {"item": 0 if item is None else item.priority + 1}
 
     def a_PTimeout(self):
-        self.expect("get")
+        if self.expect("get") == "blocking":
+            # a get() WITHOUT timeout cannot time out: the model's PTimeout has no counterpart in this parent
+            raise Divergence("blocking_get_cannot_time_out", {})
         if self.pipe:
             raise Divergence("timeout_on_nonempty_pipe", {})
         self.reply(("__raise__", stdq.Empty()))
@@ -621,6 +623,10 @@ def run_random(argv, cap, C, seed, max_faults=0, fault_kinds=(), max_steps=5000,
             elif k == "get":
                 if s.pipe:
                     choices.append(("PGetItem", None, 3))
+                elif obj == "blocking":
+                    if not choices:
+                        s.trace.append({"t": "HANG", "why": "get() without timeout on an empty queue and no worker step enabled"})
+                        break
                 else:
                     choices.append(("PTimeout", None, 3 * p_timeout / (1 - p_timeout) if choices else 1))
             elif k == "is_alive":
